@@ -28,6 +28,7 @@ def canon(callee):
     """normalised callee path; `BInt::<3>::f` and `<impl BInt<3>>::f` are the same function"""
     callee = re.sub(r"^num_bigint::BigInt::(\w+)$", r"<impl BigInt>::\1", callee.strip())
     callee = re.sub(r"^bnum::errors::ParseIntError::(\w+)$", r"<impl BnumParseIntError>::\1", callee)
+    callee = re.sub(r"^(?:std|alloc)::string::String::(\w+)$", r"<impl String>::\1", callee)
     n = norm_ty(callee)
     n = re.sub(r"^(BInt|BUint)::<(\d+)>::(\w+)$", r"<impl \1<\2>>::\3", n)
     return n
@@ -615,6 +616,93 @@ def m_chars_next(interp, path, args, ret_ty, callee):
 @model(r"^<Chars<'_> as IntoIterator>::into_iter$", "identity")
 def m_chars_into_iter(interp, path, args, ret_ty, callee):
     return args[0]
+
+
+@model(r"<impl str>::as_bytes$", "the bytes of the string (entry-list slice)")
+def m_str_as_bytes(interp, path, args, ret_ty, callee):
+    from .interp import _ConstRef
+    a = _symstr(interp, path, args[0])
+    return _ConstRef("&[u8]", StructV("[u8]", [IntV(b, "u8") for b in a.bytes]))
+
+
+@model(r"^<&?str as AsRef<str>>::as_ref$|^<String as AsRef<str>>::as_ref$|^<str as ToOwned>::to_owned$|"
+       r"^<String as From<&str>>::from$|^<str as ToString>::to_string$|^<&&?str as AsRef<str>>::as_ref$",
+       "owned / borrowed views of the same text: identity in the string model")
+def m_str_identity(interp, path, args, ret_ty, callee):
+    return _symstr(interp, path, args[0])
+
+
+@model(r"^<Chars<'_> as Iterator>::collect::<Vec<char>>$", "the chars as an entry-list vector")
+def m_chars_collect(interp, path, args, ret_ty, callee):
+    it = args[0]
+    if it.kind != "struct" or it.ty != "CharsIter":
+        raise Refuse("collect over %r" % (it,))
+    return StructV("Vec<char>", list(it.fields))
+
+
+@model(r"^<Vec<(char|u8)> as Index<usize>>::index$", "element by concrete index; out of bounds panics")
+def m_vec_char_index(interp, path, args, ret_ty, callee):
+    from .interp import _ConstRef
+    v = deref(interp, path, args[0])
+    i = concrete(args[1].term)
+    if i is None:
+        raise Refuse("Vec index with a symbolic position")
+    if not (0 <= i < len(v.fields)):
+        return [Outcome(path, "panic", msg="index out of bounds")]
+    return _ConstRef("&" + v.fields[i].ty, v.fields[i])
+
+
+@model(r"^<(vec::)?IntoIter<char> as Iterator>::filter::<.*>$", "lazy filter over chars")
+def m_chars_filter(interp, path, args, ret_ty, callee):
+    if args[0].kind != "struct" or args[0].ty != "VecIntoIter":
+        raise Refuse("filter over %r" % (args[0],))
+    return StructV("CharFilter", [args[0], args[1]])
+
+
+@model(r"^<Filter<(vec::)?IntoIter<char>, .*> as Iterator>::collect::<String>$",
+       "string of the kept chars: every char carries its symbolic keep flag (length = number kept)")
+def m_chars_filter_collect(interp, path, args, ret_ty, callee):
+    from .interp import _ConstRef
+    it = args[0]
+    if it.kind != "struct" or it.ty != "CharFilter":
+        raise Refuse("collect over %r" % (it,))
+    chars, clo = it.fields[0].fields, it.fields[1]
+    cty, cval = _closure_of(clo)
+    kept = []
+    p = path
+    for c in chars:
+        f = interp.pick_closure(cty, [_ConstRef("&char", c)], None)
+        outs = interp.call_function(f, [_ConstRef("&mut " + cty, cval), _ConstRef("&char", c)], p)
+        outs = [o for o in outs if o.kind != "unwind"]
+        if len(outs) != 1 or outs[0].kind != "ret":
+            raise Refuse("filter predicate forks or fails")
+        p = outs[0].path
+        kept.append(StructV("Kept", [c, BoolV(outs[0].value.term)]))
+    return [Outcome(p, "ret", StructV("FilteredString", kept))]
+
+
+@model(r"^<impl String>::len$", "number of bytes (ASCII: number of chars)")
+def m_string_len(interp, path, args, ret_ty, callee):
+    v = deref(interp, path, args[0])
+    if v.kind == "symstr":
+        return IntV(len(v.bytes), "usize")
+    if v.kind == "struct" and v.ty == "FilteredString":
+        return IntV(z3.Sum([z3.If(k.fields[1].term, 1, 0) for k in v.fields]) if v.fields else z3.IntVal(0), "usize")
+    raise Refuse("String::len of %r" % (v,))
+
+
+@model(r"^<\[u8; (\d+)\] as TryFrom<Vec<u8>>>::try_from$", "Ok exactly when the vector has that many elements")
+def m_array_try_from_vec(interp, path, args, ret_ty, callee):
+    n = int(re.match(r"^<\[u8; (\d+)\]", canon(callee)).group(1))
+    v = args[0]
+    if v.kind == "struct" and v.ty == "SymLenVec<u8>":
+        ok = v.fields[0].term == n
+        return EnumV(ret_ty, z3.If(ok, 0, 1), {0: [StructV("[u8; %d]" % n, [IntV(0, "u8")] * n)], 1: [v]})
+    if v.kind == "struct":
+        if len(v.fields) == n:
+            return EnumV(ret_ty, 0, {0: [StructV("[u8; %d]" % n, list(v.fields))]})
+        return EnumV(ret_ty, 1, {1: [v]})
+    raise Refuse("try_from of %r" % (v,))
 
 
 @model(r"<impl char>::is_ascii_digit$", "'0'..='9'")
